@@ -18,8 +18,8 @@ package relayer
 // membership rejections of the import must be unreachable for such a state.
 //@ requires [C18] proposer_is_voter: genState.Relayer != nil && exists(i, 0, len(genState.Voters), addrEncode(genState.Voters[i].Address) == genState.Relayer.Proposer)
 //@ requires [C18] members_are_voters: genState.Relayer != nil && forall(k, 0, len(genState.Relayer.Voters), exists(i, 0, len(genState.Voters), addrEncode(genState.Voters[i].Address) == genState.Relayer.Voters[k]))
-//@ unreachable panic 6 proposer_accepted
-//@ unreachable panic 11 member_accepted
+//@ unreachable panic 6 proposer_accepted C18
+//@ unreachable panic 11 member_accepted C18
 //@ loop 0 invariant in_set: forall(j, 0, rangeindex + 1, has(votersSet, addrEncode(genState.Voters[j].Address)))
 //@ loop 1 invariant true
 //@ loop 2 invariant true
